@@ -92,6 +92,16 @@ def rule_schema(ck):
                         % (u(opens[0].args[0])[:30], fname, bad[0].lineno))
             else:
                 oo.ok('written elsewhere and moved onto the named file on every path')
+        # ... on every path: a call that leaves before the file is opened neither creates nor truncates it, and the next load reads
+        # whatever the path held before (or nothing)
+        oc = ck.ob('C14-D1.created', f, 'the file is opened on every path', opens[0])
+        cfg = f.cfg
+        st = stmt_of(opens[0])
+        early = [r_ for r_ in returns(f) if cfg.node_of(st) is not None and cfg.node_of(r_) is not None
+                 and not cfg.dominates(cfg.node_of(st), cfg.node_of(r_))]
+        (oc.fail('the return at L%d leaves write_ascii before `%s`: in write mode the file is neither created nor emptied, so loading it '
+                 'afterwards gives the previous content instead of this catalog' % (early[0].lineno, u(opens[0])[:50])) if early else
+         oc.ok('no exit before the open'))
     # row dict
     rows = [n for n in all_nodes(f) if isinstance(n, ast.Dict) and len(n.keys) >= 6]
     o = ck.ob('C14-D1.row', f, rows[0] if rows else 'row dictionary', rows[0] if rows else f.node)
@@ -181,7 +191,10 @@ def rule_schema(ck):
             oo = ck.ob('C14-D1.read.%s' % slot, g, u(e), e)
             ee = exg.expand(e)
             idx = {const_value(x.slice) for x in ast.walk(ee) if isinstance(x, ast.Subscript) and isinstance(x.value, ast.Name) and x.value.id == 'line'}
-            (oo.ok('column %d' % want[slot]) if idx == {want[slot]} else oo.fail('the reader takes the %s from column(s) %s, the writer puts it in column %d' % (slot, sorted(idx), want[slot])))
+            arith = [x for x in ast.walk(ee) if isinstance(x, ast.BinOp)] if slot in ('lat', 'lon', 'depth', 'mag') else []
+            (oo.fail('the reader changes the %s it read (`%s`): the number written - a value at the end of its range included - is not the one '
+                     'loaded' % (slot, u(arith[0])[:50])) if arith and idx == {want[slot]} else
+             oo.ok('column %d' % want[slot]) if idx == {want[slot]} else oo.fail('the reader takes the %s from column(s) %s, the writer puts it in column %d' % (slot, sorted(idx), want[slot])))
     rule_dialect(ck)
 
 
@@ -501,7 +514,15 @@ def rule_forms(ck):
     frames = [c for c in calls_in(P, d, 'pandas.DataFrame') if c.args and u(strip_shape(exd.expand(c.args[0]))) in ('self.catalog', 'self._catalog', 'self.data')]
     idcol = [n for n in all_nodes(d) if isinstance(n, ast.Assign) and isinstance(n.targets[0], ast.Subscript) and const_value(n.targets[0].slice) == 'catalog_id'
              and u(n.value) == 'self.catalog_id']
-    (o.ok() if frames and idcol else o.fail('to_dataframe does not carry the events and the catalog id'))
+    cond = []
+    if idcol:
+        from .common import guard_dnf
+        try:
+            cond = [a for c_ in guard_dnf(idcol[0], d.node) for a, pol in c_ if 'catalog_id' in u(a) and not isinstance(a, ast.Compare)]
+        except Inconclusive:
+            cond = []
+    (o.fail('the catalog_id column is written only when `%s` is true: the id 0 is a catalog id like any other and does not survive' % u(cond[0])[:50])
+     if cond else o.ok() if frames and idcol else o.fail('to_dataframe does not carry the events and the catalog id'))
     g = P.func(A + 'from_dataframe')
     o = ck.ob('C14-D7.fromdf', g, 'records of the dtype columns', g.node)
     exg = Expander(P, g)
